@@ -148,7 +148,7 @@ theorem txAcceptedAux_env (K : Keys) (mf : Nat) : ∀ (fuel : Nat) (s : State) (
     Env s (txAcceptedAux K mf fuel s recs d) := by
   intro fuel
   induction fuel with
-  | zero => intro s recs d; exact Env.refl s
+  | zero => intro s recs d; exact ⟨rfl, rfl, fun _ => rfl⟩
   | succ n ih =>
     intro s recs d
     unfold txAcceptedAux
@@ -189,12 +189,18 @@ theorem submitNet_env (K : Keys) (mf : Nat) (s : State) (t : Tx) (tr : Bool) : E
     · exact h2.trans (txAccepted_env K mf _ _)
     · exact h2
 
+theorem markLocal_env (K : Keys) (s : State) (id : TxId) : Env s (markLocal K s id) := by
+  unfold markLocal
+  split
+  · exact ⟨rfl, rfl, fun h => h⟩
+  · exact Env.refl s
+
 theorem submitLocal_env (K : Keys) (mf : Nat) (s : State) (t : Tx) : Env s (submitLocal K mf s t).2 := by
   unfold submitLocal
   dsimp only
   have h1 := rejDeleteByIdx_env K s (K.bidx t.id)
   split
-  · exact h1
+  · exact h1.trans (markLocal_env K _ _)
   · have h2 := h1.trans (processTx_env K mf _ t { trusted := true, loc := true })
     split
     · exact h2.trans (txAccepted_env K mf _ _)
